@@ -80,8 +80,11 @@ func (fr *frame) fsStep(op, path string, fallible bool) bool {
 	if r.flags["fsVisible"] != 0 {
 		fr.sched().yieldPoint(fr.g, op)
 	}
-	if r.flags["crashArmed"] != 0 {
+	if fr.g != nil && fr.g.crashArmed > 0 && (r.flags["crashBudgetSet"] == 0 || r.flags["crashBudget"] > 0) {
 		if r.choose(2) == 1 {
+			if r.flags["crashBudgetSet"] != 0 {
+				r.flags["crashBudget"]--
+			}
 			r.notes["crash-before"] = fmt.Sprintf("op#%d %s %s", fs.ops, op, path)
 			panic(crashNow{})
 		}
@@ -607,6 +610,24 @@ func init() {
 			return fr.pathError("chmod", a[0], eNOENT)
 		}
 		chmod(fr, e.node, a[1])
+		return nilErr
+	})
+	register("os.Link", func(fr *frame, a []value) value {
+		if fr.fsStep("link", pathString(fr.splitPath(a[1])), true) {
+			return fr.linkError("link", a[0], a[1], eIO)
+		}
+		d1, _, e1 := fr.fsResolve(a[0], false)
+		if d1 == nil || e1 == nil {
+			return fr.linkError("link", a[0], a[1], eNOENT)
+		}
+		d2, base2, e2 := fr.fsResolve(a[1], false)
+		if d2 == nil {
+			return fr.linkError("link", a[0], a[1], eNOENT)
+		}
+		if e2 != nil {
+			return fr.linkError("link", a[0], a[1], eEXIST)
+		}
+		d2.entries = append(d2.entries, &fsEntry{name: base2, node: e1.node}) // same inode
 		return nilErr
 	})
 	register("os.Getwd", func(fr *frame, a []value) value {
